@@ -195,6 +195,79 @@ def dec_citems(o):
     return its
 
 
+def dec_sops(c):
+    ops = []
+    for _ in range(c.take()):
+        t = c.take()
+        if t in (1, 2):
+            fail, k = c.take(), c.take()
+            ops.append((t, c.bytes(), fail == 1))
+        else:
+            ops.append((t, None, False))
+    return ops
+
+
+def prefix_pieces(frames, b):
+    """can b be cut into one (possibly empty) prefix of every frame, in order?"""
+    reach = {0}
+    for f in frames:
+        nxt = set()
+        for pos in reach:
+            j = 0
+            nxt.add(pos)
+            while j < len(f) and pos + j < len(b) and b[pos + j] == f[j]:
+                j += 1
+                nxt.add(pos + j)
+        reach = nxt
+    return len(b) in reach
+
+
+def check_sink(c, o):
+    fr = dec_framer(c)
+    ops = dec_sops(c)
+    sched = dec_sched(c)
+    results = [(o.take(), o.take()) for _ in ops]
+    seen, flushes = [], 0
+    for _ in range(o.take()):
+        t = o.take()
+        if t == 1:
+            seen += o.bytes()
+        elif t not in (2, 3):
+            return "malformed writer log"
+    if not o.done():
+        return "malformed result"
+    io_kinds = {a for (k, a) in sched if k == 1 and a != 3} | {2}
+    frames = []
+    for (t, p, fail), r in zip(ops, results):
+        io_error = r[0] == 1 and r[1] in io_kinds and r[1] != 22
+        if t in (1, 2):
+            if fail:
+                if r == (0, 0):
+                    return "the encoder failed on an item but feed/send reported success"
+                if r != (1, 22) and not io_error:
+                    return "unexpected result %r for an item the encoder rejects" % (r,)
+            else:
+                if r == (1, 22):
+                    return "a codec error was reported for an item that encodes fine"
+                if r != (0, 0) and not io_error:
+                    return "unexpected result %r" % (r,)
+                frames.append(ref_encode(fr, [p]))      # each ok item framed on its own
+        elif r != (0, 0) and not io_error:
+            return "unexpected result %r of flush/close" % (r,)
+    if all(r[0] == 0 or r == (1, 22) for r in results):
+        # no write error: everything except a frame fed last (still pending) was handed over
+        exp = [b for f in frames for b in f]
+        last = ops[-1] if ops else None
+        if last and last[0] == 1 and not last[2]:
+            exp = exp[:len(exp) - len(frames[-1])]
+        if seen != exp:
+            return ("the writer was handed %d bytes, the framings of the successfully encoded items are %d bytes: "
+                    "a failed item leaked into a frame, or a frame was lost or glued" % (len(seen), len(exp)))
+    elif not prefix_pieces(frames, seen):
+        return "the writer saw bytes that are not prefixes of the framings of the successfully encoded items"
+    return None
+
+
 def check_stream(fr, sched, data, o, frames=None):
     n, oks, errs = dec_items(o)
     reads, remaining = o.take(), o.take()
@@ -348,6 +421,26 @@ def _oracle(case, out):
                 exp = (2, None)
             if (s, data) != exp:
                 return "typed decode (%d bytes wanted, %d present): %r, expected %r" % (want, slen, (s, data), exp)
+    elif op == 8:
+        return check_sink(c, o)
+    elif op == 9:
+        fr = dec_framer(c)
+        sched = dec_sched(c)
+        data = c.rest()
+        n = o.take()
+        got = []
+        for _ in range(n):
+            got.append(("ok", o.bytes()) if o.take() == 0 else ("err", o.take()))
+        reads, remaining = o.take(), o.take()
+        if reads > len(sched) + 2 or remaining > len(data):
+            return "read count / remaining bytes out of range"
+        exp = [("err", 22) if p[:1] == [255] else ("ok", p)
+               for p in (ref_parse(fr, data[:len(data) - remaining]) if fr[0] != "noop" else [])]
+        if fr[0] != "noop":
+            frames_got = [g for g in got if g[0] == "ok" or g[1] == 22]
+            if frames_got != exp:
+                return ("failing decoder: %d frame items, the delivered bytes hold %d frames "
+                        "(a rejected frame must be consumed like any other)" % (len(frames_got), len(exp)))
     if not o.done():
         return "malformed result (trailing data)"
     return None
